@@ -1203,6 +1203,9 @@ post_process_multipart (struct MHD_PostProcessor *pp,
       break;
     case PP_Nested_ProcessEntryHeaders:
       pp->value_offset = 0;
+      /* as for the top-level elements: report every nested element at
+         least once, even if its content is empty */
+      pp->must_ikvi = true;
       if (MHD_NO ==
           process_multipart_headers (pp,
                                      &ioff,
